@@ -96,6 +96,13 @@ impl ValidationReport {
     pub fn process(
         engine: &Engine, config: &Config, initial: bool,
     ) -> Result<(Self, Metrics), RunFailed> {
+        #[cfg(routinator_verif)]
+        match crate::verif::next_outcome() {
+            // Hook H5: forced run outcome.
+            crate::verif::Outcome::Ok => { }
+            crate::verif::Outcome::Retry => return Err(RunFailed::retry()),
+            crate::verif::Outcome::Fatal => return Err(RunFailed::fatal()),
+        }
         let report = Self::new(config);
         let mut run = engine.start(&report, initial)?;
         run.process()?;
